@@ -152,7 +152,7 @@ func C01(c *core.Ctx) {
 	}
 	c.Floor("R1.1", "SendData callers", n, 4)
 	// Data emission: the SendPacket in processOutgoingData goes to GetFace(nexthop) with the given token
-	for _, ci := range core.FindCalls(pod, idSendPacket) {
+	for _, ci := range core.FindCallsDeep(pod, idSendPacket) {
 		recv, args := core.CallArgs(ci.Common())
 		okFace := false
 		if cl, isC := core.Strip(recv).(*ssa.Call); isC {
@@ -168,7 +168,7 @@ func C01(c *core.Ctx) {
 	}
 
 	// ---- SendData: passthrough, token from the in-record of the same face, delete
-	for _, ci := range core.FindCalls(sd, idProcOutData) {
+	for _, ci := range core.FindCallsDeep(sd, idProcOutData) {
 		_, args := core.CallArgs(ci.Common())
 		c.Decide(args[0] == ssa.Value(sd.Params[1]) && args[1] == ssa.Value(sd.Params[3]) && args[3] == ssa.Value(sd.Params[4]), "R1.2", "SendData-passthrough", c.Pos(ci), "packet, nexthop, inFace passed through unchanged", "SendData does not pass its packet/nexthop/inFace through unchanged")
 		leaves := sl.Leaves(args[2])
@@ -218,7 +218,7 @@ func C01(c *core.Ctx) {
 			ok = false
 			for _, f := range core.EdgeFacts(sd, hit) {
 				if f.Holds {
-					fr := core.MustFollow(sd, core.Point{Block: f.E.To, Idx: 0}, func(in ssa.Instruction) bool { return in == del }, nil)
+					fr := core.MustFollowDeep(sd, core.Point{Block: f.E.To, Idx: 0}, func(in ssa.Instruction) bool { return in == del }, nil)
 					ok = fr.OK
 				}
 			}
@@ -231,7 +231,7 @@ func C01(c *core.Ctx) {
 		tn := t.Obj().Name()
 		if fn := p.MethodOf(t, "AfterReceiveData"); fn != nil && fn.Blocks != nil {
 			c.Funcs[core.FuncName(fn)] = true
-			calls := core.FindCalls(fn, idSendData, idProcOutData)
+			calls := core.FindCallsDeep(fn, idSendData, idProcOutData)
 			if len(calls) == 0 {
 				c.Viol("R1.2", "strategy-forwards-data:"+tn, p.Pos(fn.Pos()), "AfterReceiveData never sends the Data downstream")
 			}
@@ -253,7 +253,7 @@ func C01(c *core.Ctx) {
 		}
 		if fn := p.MethodOf(t, "AfterContentStoreHit"); fn != nil && fn.Blocks != nil {
 			c.Funcs[core.FuncName(fn)] = true
-			calls := core.FindCalls(fn, idSendData, idProcOutData)
+			calls := core.FindCallsDeep(fn, idSendData, idProcOutData)
 			ok := len(calls) == 1
 			if ok {
 				_, args := core.CallArgs(calls[0].Common())
@@ -264,7 +264,7 @@ func C01(c *core.Ctx) {
 	}
 
 	// ---- processIncomingInterest: requester of a cache hit is the incoming face, after its in-record
-	for _, ci := range core.FindCalls(pii, idAfterCsHit) {
+	for _, ci := range core.FindCallsDeep(pii, idAfterCsHit) {
 		_, args := core.CallArgs(ci.Common())
 		pkt := ssa.Value(pii.Params[1])
 		isIncomingFaceID := func(v ssa.Value) bool {
@@ -287,7 +287,7 @@ func C01(c *core.Ctx) {
 		}
 		c.Decide(isIncomingFaceID(args[2]), "R1.2", "cs-hit-requester-is-incoming-face", c.Pos(ci), "AfterContentStoreHit is given the incoming face's id", "a cache hit is answered to a face other than the one the Interest arrived on")
 		// the in-record for that face was inserted before, on the same entry
-		okIn := core.Precedes(pii, ci, func(in ssa.Instruction) bool {
+		okIn := core.PrecedesDeep(pii, ci, func(in ssa.Instruction) bool {
 			cc, ok := core.IsCall(in, core.CalleeID{Pkg: "fw/table", Recv: "PitEntry", Name: "InsertInRecord"})
 			if !ok {
 				return false
@@ -316,7 +316,7 @@ func C01(c *core.Ctx) {
 		return true
 	}
 	var emits []ssa.Instruction
-	for _, ci := range core.FindCalls(pid, idAfterRecvData, idProcOutData, idSendData) {
+	for _, ci := range core.FindCallsDeep(pid, idAfterRecvData, idProcOutData, idSendData) {
 		emits = append(emits, ci)
 	}
 	c.Floor("R1.2", "Data emission sites in processIncomingData", len(emits), 2)
@@ -345,7 +345,7 @@ func C01(c *core.Ctx) {
 			}
 			return 0, 0
 		}}
-		res := core.Gate(pid, emits, neg(none))
+		res := core.GateDeep(pid, emits, neg(none))
 		c.Decide(res.OK && res.PassEdges > 0, "R1.7", "unsolicited-data-gate", p.Pos(pid.Pos()), "no emission reachable when no PIT entry matched", "Data can be emitted although no PIT entry matched; path: "+p.PathString(res.Path))
 	}
 	for i, em := range emits {
@@ -420,7 +420,7 @@ func C01(c *core.Ctx) {
 		loops := enclosingLoops(em.Block())
 		consumed := func(isB func(ssa.Instruction) bool) bool {
 			if len(loops) == 0 {
-				return core.MustFollow(pid, core.After(em), isB, nil).OK || core.Precedes(pid, em, isB)
+				return core.MustFollowDeep(pid, core.After(em), isB, nil).OK || core.PrecedesDeep(pid, em, isB)
 			}
 			// inside the per-entry loop: every iteration consumes
 			for _, h := range loops {
@@ -502,7 +502,7 @@ func C01(c *core.Ctx) {
 			}
 			return 0, 0
 		}}
-		res := core.Gate(fm, apps, pos(cbp), pos(exact))
+		res := core.GateDeep(fm, apps, pos(cbp), pos(exact))
 		c.Decide(res.OK && res.PerLit[0] > 0 && res.PerLit[1] > 0, "R1.4", "name-match-rule", p.Pos(fm.Pos()), "an entry is appended only under canBePrefix ∨ depth == len(name)", fmt.Sprintf("a PIT entry can match Data although neither CanBePrefix is set nor the names are equal (canBePrefix atoms=%d, exact atoms=%d); path: %s", res.PerLit[0], res.PerLit[1], p.PathString(res.Path)))
 		// and both alternatives do lead to the append (not a conjunction)
 		for _, a := range []*core.Atom{cbp, exact} {
@@ -534,11 +534,11 @@ func C01(c *core.Ctx) {
 		tok := ssa.Value(fd.Params[2])
 		tokNonNil := atomNonNil("token!=nil", tok)
 		var byName []ssa.Instruction
-		for _, ci := range core.FindCalls(fd, core.CalleeID{Pkg: "fw/table", Recv: "PitCsTree", Name: "findInterestPrefixMatchByNameEnc"}) {
+		for _, ci := range core.FindCallsDeep(fd, core.CalleeID{Pkg: "fw/table", Recv: "PitCsTree", Name: "findInterestPrefixMatchByNameEnc"}) {
 			byName = append(byName, ci)
 		}
 		c.Floor("R1.4", "name-match calls", len(byName), 1)
-		res := core.Gate(fd, byName, neg(tokNonNil))
+		res := core.GateDeep(fd, byName, neg(tokNonNil))
 		c.Decide(res.OK && res.PassEdges > 0, "R1.4", "token-short-circuit", p.Pos(fd.Pos()), "name matching is unreachable when a token is present", "Data carrying a PIT token is also matched by name")
 		// returns of a non-empty result in the token branch
 		var rets []ssa.Instruction
@@ -588,14 +588,14 @@ func C01(c *core.Ctx) {
 			}
 			return 0, 0
 		}}
-		res = core.Gate(fd, rets, pos(hit))
+		res = core.GateDeep(fd, rets, pos(hit))
 		c.Decide(res.OK && res.PassEdges > 0, "R1.4", "token-match:map-hit", p.Pos(fd.Pos()), "an entry is returned for a token only on the map-hit edge", "the token branch can return an entry without a token-map hit")
-		res = core.Gate(fd, rets, pos(tokEq))
+		res = core.GateDeep(fd, rets, pos(tokEq))
 		c.Decide(res.OK && res.PassEdges > 0, "R1.4", "token-match:token-equal", p.Pos(fd.Pos()), "an entry is returned for a token only when entry.Token() == *token", "the token branch can return an entry whose token differs from the Data's")
 	}
 	// token extraction in processIncomingData: only a 6-byte token is this forwarder's format
 	{
-		calls := core.FindCalls(pid, idFindByData)
+		calls := core.FindCallsDeep(pid, idFindByData)
 		for _, ci := range calls {
 			_, args := core.CallArgs(ci.Common())
 			leaves := sl.Leaves(args[1])
@@ -616,7 +616,7 @@ func C01(c *core.Ctx) {
 			for _, l := range leaves {
 				if l.Kind == "call" || l.Kind == "alloc" || l.Kind == "make" {
 					if in, ok := l.Val.(ssa.Instruction); ok {
-						res := core.Gate(pid, []ssa.Instruction{in}, pos(six))
+						res := core.GateDeep(pid, []ssa.Instruction{in}, pos(six))
 						sixOK = res.OK && res.PassEdges > 0
 					}
 				}
